@@ -4,6 +4,7 @@
 package ev
 
 import (
+	"bytes"
 	"crypto/sha256"
 	"encoding/hex"
 	"encoding/json"
@@ -13,6 +14,7 @@ import (
 	"io"
 	"log"
 	"os"
+	"os/exec"
 	"path/filepath"
 	"runtime"
 	"runtime/debug"
@@ -45,6 +47,11 @@ type Ctx struct {
 
 	start time.Time
 	mu    sync.Mutex
+
+	shard, nshards int
+	partial        string
+	added          map[string]int64
+	shardInfo      []any
 
 	evals      int64
 	counters   map[string]int64
@@ -86,6 +93,8 @@ func Main(levels map[string]string) *Ctx {
 	tier := flag.String("tier", "quick", "quick|thorough")
 	replay := flag.String("replay", "", "replay file")
 	workers := flag.Int("workers", 16, "parallel workers")
+	shard := flag.String("shard", "", "internal: i/n (child process of a sharded run)")
+	partial := flag.String("partial", "", "internal: file for the child's partial result")
 	flag.Parse()
 	zerolog.SetGlobalLevel(zerolog.Disabled)
 	log.SetOutput(io.Discard)
@@ -100,6 +109,10 @@ func Main(levels map[string]string) *Ctx {
 	c := &Ctx{Prop: *prop, Tier: *tier, Level: lvl, Workers: *workers, start: time.Now(),
 		counters: map[string]int64{}, distinct: map[uint64]struct{}{}, outcomes: map[string]int64{},
 		viol: map[string]*Violation{}, cov: map[string]any{}, maxSamples: 6, exhaustive: true}
+	if *shard != "" {
+		fmt.Sscanf(*shard, "%d/%d", &c.shard, &c.nshards)
+		c.partial = *partial
+	}
 	if s := os.Getenv("VERIF_SEED"); s != "" {
 		c.Seed, _ = strconv.Atoi(s)
 	}
@@ -348,11 +361,167 @@ func loadKnown() []known {
 	return ks
 }
 
+// partialResult is what a shard child hands back to its parent.
+type partialResult struct {
+	Evals      int64            `json:"evals"`
+	Counters   map[string]int64 `json:"counters"`
+	Outcomes   map[string]int64 `json:"outcomes"`
+	Distinct   []uint64         `json:"distinct"`
+	Samples    []any            `json:"samples"`
+	Violations []*Violation     `json:"violations"`
+	ViolCount  int64            `json:"viol_count"`
+	Capped     []string         `json:"capped"`
+	Added      map[string]int64 `json:"added"`
+	Info       []any            `json:"info"`
+}
+
+// IsChild reports whether this process is one shard of a sharded run.
+func (c *Ctx) IsChild() bool { return c.nshards > 0 }
+
+// AddCov adds to an additive numeric coverage key (summed over shards), e.g. states / transitions.
+func (c *Ctx) AddCov(k string, n int64) {
+	c.mu.Lock()
+	if c.added == nil {
+		c.added = map[string]int64{}
+	}
+	c.added[k] += n
+	c.mu.Unlock()
+}
+
+// ShardInfo records a per-shard report (kept as a list in the evidence).
+func (c *Ctx) ShardInfo(v any) {
+	c.mu.Lock()
+	c.shardInfo = append(c.shardInfo, v)
+	c.mu.Unlock()
+}
+
+// Sharded runs body(i) for i in [0,n) in n child processes (at most `conc` at a time) and merges their results.
+// Globals of the seams (virtual clock, registries) are per process, which is why shards are processes.
+func (c *Ctx) Sharded(n, conc int, body func(i int)) {
+	if c.IsChild() {
+		if c.shard < n {
+			body(c.shard)
+		}
+		return
+	}
+	if c.ReplayCase != nil || n == 1 {
+		for i := 0; i < n; i++ {
+			body(i)
+		}
+		return
+	}
+	dir, err := os.MkdirTemp(filepath.Join(verifDir, ".build"), "shards")
+	if err != nil {
+		os.MkdirAll(filepath.Join(verifDir, ".build"), 0o755)
+		dir, err = os.MkdirTemp(filepath.Join(verifDir, ".build"), "shards")
+		if err != nil {
+			fmt.Fprintln(os.Stderr, "shards:", err)
+			os.Exit(2)
+		}
+	}
+	defer os.RemoveAll(dir)
+	if conc < 1 {
+		conc = 1
+	}
+	order := make([]int, n)
+	for i := range order {
+		order[i] = (i + c.Seed) % n // the seed only permutes the start order
+	}
+	sem := make(chan struct{}, conc)
+	var wg sync.WaitGroup
+	for _, i := range order {
+		wg.Add(1)
+		sem <- struct{}{}
+		go func(i int) {
+			defer wg.Done()
+			defer func() { <-sem }()
+			pf := filepath.Join(dir, fmt.Sprintf("p%d.json", i))
+			args := []string{"-prop", c.Prop, "-tier", c.Tier, "-workers", fmt.Sprint(c.Workers), "-shard", fmt.Sprintf("%d/%d", i, n), "-partial", pf}
+			cmd := exec.Command(os.Args[0], args...)
+			cmd.Env = append(os.Environ(), fmt.Sprintf("VERIF_BUDGET_S=%d", int(time.Until(c.Deadline).Seconds())))
+			var stderr bytes.Buffer
+			cmd.Stderr = &stderr
+			runErr := cmd.Run()
+			b, rerr := os.ReadFile(pf)
+			var pr partialResult
+			if rerr != nil || json.Unmarshal(b, &pr) != nil {
+				tail := stderr.String()
+				if len(tail) > 3000 {
+					tail = tail[len(tail)-3000:]
+				}
+				c.Violation(c.Prop+":worker-died", fmt.Sprintf("shard %d/%d died without a result (%v): %s", i, n, runErr, tail), map[string]any{"shard": i, "of": n})
+				return
+			}
+			c.merge(&pr)
+		}(i)
+	}
+	wg.Wait()
+}
+
+func (c *Ctx) merge(p *partialResult) {
+	c.mu.Lock()
+	defer c.mu.Unlock()
+	c.evals += p.Evals
+	for k, v := range p.Counters {
+		c.counters[k] += v
+	}
+	for k, v := range p.Outcomes {
+		c.outcomes[k] += v
+	}
+	for _, h := range p.Distinct {
+		c.distinct[h] = struct{}{}
+	}
+	for _, s := range p.Samples {
+		if len(c.samples) < c.maxSamples {
+			c.samples = append(c.samples, s)
+		}
+	}
+	for _, v := range p.Violations {
+		if _, ok := c.viol[v.Key]; !ok {
+			c.viol[v.Key] = v
+			c.violOrder = append(c.violOrder, v.Key)
+		}
+	}
+	c.violCount += p.ViolCount
+	for _, w := range p.Capped {
+		c.exhaustive = false
+		dup := false
+		for _, x := range c.capped {
+			dup = dup || x == w
+		}
+		if !dup {
+			c.capped = append(c.capped, w)
+		}
+	}
+	if c.added == nil {
+		c.added = map[string]int64{}
+	}
+	for k, v := range p.Added {
+		c.added[k] += v
+	}
+	c.shardInfo = append(c.shardInfo, p.Info...)
+}
+
 // Finish writes the evidence file, prints VIOLATION / KNOWN-FINDING lines and returns the exit code.
 func (c *Ctx) Finish() int {
 	stopProf()
 	c.mu.Lock()
 	defer c.mu.Unlock()
+	if c.IsChild() {
+		pr := partialResult{Evals: c.evals, Counters: c.counters, Outcomes: c.outcomes, Samples: c.samples, ViolCount: c.violCount, Capped: c.capped, Added: c.added, Info: c.shardInfo}
+		for h := range c.distinct {
+			pr.Distinct = append(pr.Distinct, h)
+		}
+		for _, k := range c.violOrder {
+			pr.Violations = append(pr.Violations, c.viol[k])
+		}
+		js, _ := json.Marshal(pr)
+		if err := os.WriteFile(c.partial, js, 0o644); err != nil {
+			fmt.Fprintln(os.Stderr, "partial:", err)
+			return 2
+		}
+		return 0
+	}
 	if c.ReplayCase != nil {
 		// replay mode: report, do not rewrite evidence
 		if len(c.viol) == 0 {
@@ -392,6 +561,12 @@ func (c *Ctx) Finish() int {
 	cov := map[string]any{}
 	for k, v := range c.cov {
 		cov[k] = v
+	}
+	for k, v := range c.added {
+		cov[k] = v
+	}
+	if len(c.shardInfo) > 0 {
+		cov["shards"] = c.shardInfo
 	}
 	cov["evaluations"] = c.evals
 	cov["distinct_nontrivial"] = len(c.distinct)
